@@ -35,6 +35,10 @@ RULE = (
     "knows the user, then relaying). Oracle: outcome is an exception, or a result equal in type and value to the "
     "authentic one. All trials run under the logical step budget. Distinct by (response, "
     "fault kind, position)."
+    " Multi-step attacks are also triggered by AUTHENTIC notInTimeWindow reports of the real "
+    "engine carrying boots or time = 2^31-1; unauthenticated messages of type Response/Get/Tr"
+    "ap with an error-status (bindings echoed or absent, flags 0/4/1 with zero or kept digest"
+    ") are part of the corpus."
 )
 ASSUMPTIONS = [
     "the attacker knows the wire format and everything on the wire, but none of the victim's keys",
